@@ -255,6 +255,7 @@ def run(prog, chk):
     chk.ob("R5.reader-loops-until-awaited", "_read_response", "while True" in t and "if num == waitfor" in t, rr.loc,
            "loops until the awaited number arrives")
     _request_numbers_unique(prog, chk)
+    _peer_counted_loops_bounded(prog, chk)
 
 
 def _request_numbers_unique(prog, chk):
@@ -285,3 +286,46 @@ def _request_numbers_unique(prog, chk):
         ok = ok and len(adds) >= 1
     chk.ob("R6.number-recorded-sent-and-returned", "_async_request", ok, ar.loc,
            "num = self.request_number is written as the first field, recorded in _expecting[num] and returned; the counter advances once")
+
+
+def _peer_counted_loops_bounded(prog, chk):
+    """R4b: a loop that runs `count` times where count was read out of the request, and that reads from the same
+    message in its body, must be bounded by what the message can hold: Message.get_* never fail on an exhausted
+    message (they return zero bytes), so `for i in range(0xFFFFFFFF)` spins for hours and the request - with every
+    later one on the session - is never answered.  Accepted: the count clamped with min(.., <expression of the
+    remaining length>) or the body leaving the loop on an exhausted message."""
+    n = 0
+    for q in ("SFTPAttributes._unpack", "SFTPServer._process", "SFTPServer._check_file", "SFTPServer._read_folder", "SFTPServer._open_folder"):
+        f = prog.func(q, required=False)
+        if f is None:
+            continue
+        fl = Flow(prog, f, implicit=False)
+        for lp in [x for x in walk_no_defs(f.node) if isinstance(x, ast.For) and M.is_call(x.iter, name="range")]:
+            names = [x.id for a in lp.iter.args for x in ast.walk(a) if isinstance(x, ast.Name)]
+            heads = [h for h in fl.cfg.nodes_for(lp) if h.kind == "for_iter"]
+            if not heads:
+                continue
+            peer = []
+            clamped = False
+            for nm in names:
+                # peer-counted: the name is assigned from a get_int somewhere in the function (flow-insensitive, so a
+                # later clamp `count = min(count, ...)` does not hide where the number came from)
+                if any(isinstance(s_, ast.Assign) and any(unparse(t_) == nm for t_ in s_.targets) and
+                       (".get_int()" in unparse(s_.value) or ".get_int64()" in unparse(s_.value)) for s_ in walk_no_defs(f.node)):
+                    peer.append(nm)
+                for (dn, rhs) in fl.defs(nm, heads[0]):
+                    if rhs is not None and M.is_call(rhs, name="min") and "get_remainder" in unparse(rhs):
+                        clamped = True
+            reads = [c for c in walk_no_defs(lp) if isinstance(c, ast.Call) and isinstance(c.func, ast.Attribute) and c.func.attr.startswith("get_")]
+            if not peer or not reads:
+                continue
+            n += 1
+            leaves = any(isinstance(s, ast.If) and "get_remainder" in unparse(s.test) and any(isinstance(x, (ast.Break, ast.Raise, ast.Return)) for x in s.body)
+                         for s in walk_no_defs(lp))
+            ok = clamped or leaves
+            chk.ob("R4.peer-counted-loop-bounded-by-message", "%s:range(%s)" % (q, ", ".join(unparse(a) for a in lp.iter.args)), ok,
+                   "%s:%d" % (f.module.path, lp.lineno),
+                   "loop count %s comes out of the request and the body reads from the message; %s" % (
+                       peer, "bounded by the remaining message length" if ok else
+                       "nothing bounds it by what the message can hold: a count of 0xFFFFFFFF keeps the server busy for hours and the request is never answered"))
+    chk.floor("R4", "peer-counted loops that read the message", n, 1)
